@@ -16,7 +16,7 @@ from collections import Counter
 from typing import Any
 
 from . import rng as R
-from .shrink import ddmin
+from .shrink import ddmin, simplify_args
 
 VERIF = os.path.dirname(os.path.dirname(os.path.abspath(__file__)))
 PY = sys.executable
@@ -217,6 +217,8 @@ class Batch:
         small = full
         if ok0:
             small, tests = ddmin(full, fails)
+            small, t2 = simplify_args(small, fails)
+            tests += t2
         w.close()
         # confirm in a fresh interpreter
         w2 = Worker(self.machine, hs, phs if self.with_peer else None)
